@@ -43,7 +43,7 @@ ADom(fmt, ver) ==
 TDom(fmt, ver) ==
   CASE fmt \in {"install", "download", "size", "encoding", "patch_index"} -> 0..3
     [] fmt = "root" -> IF ver = 1 THEN {1} ELSE {0, 1}
-    [] fmt = "tvfs" -> IF ver = 1 THEN {1} ELSE {0, 1}
+    [] fmt = "tvfs" -> {1}      \* the content-key column is a property of the table, not of an entry
     [] fmt \in {"patch_archive", "build_config", "cdn_config"} -> {0, 1}
     [] OTHER -> {0}
 FmtVers ==
@@ -65,8 +65,11 @@ WidthsLost(b) == b.fmt = "archive_index" /\ b.ver # 4 /\ "F08a" \in KnownDeviati
 ParseA(b) ==
   IF b.lay = "garbage" THEN Err
   ELSE [fmt |-> b.fmt, ver |-> b.ver, es |-> b.es]
+\* F08c: RootBuilder::build refuses a root without a non-empty block, RootFile::parse accepts it
+EmptyRefused(v) == v.fmt = "root" /\ v.es = <<>> /\ "F08c" \in KnownDeviations
 BuildA(v) ==
-  IF WidthsLost(v) THEN BytesOf("garbage", v.fmt, v.ver, v.es)
+  IF EmptyRefused(v) THEN Err
+  ELSE IF WidthsLost(v) THEN BytesOf("garbage", v.fmt, v.ver, v.es)
   ELSE BytesOf("canon", v.fmt, v.ver, v.es)
 LogicalA(v) == SetOfSeq(v.es)
 
@@ -75,14 +78,15 @@ Stable(b) ==
   LET v == ParseA(b) IN
   IsErr(v) \/
   LET b2 == BuildA(v)
-      v2 == ParseA(b2)
-  IN /\ ~IsErr(v2)
+      v2 == IF IsErr(b2) THEN Err ELSE ParseA(b2)
+  IN /\ ~IsErr(b2)
+     /\ ~IsErr(v2)
      /\ BuildA(v2) = b2
      /\ LogicalA(v) = LogicalA(v2)
 \* (B1)
+\* the builders write the widths they were configured with (unlike CascFormat::build of F08a)
 BuilderFaithful(p) ==
-  LET b == BytesOf("canon", p.fmt, p.ver, p.es)
-      v == ParseA(IF WidthsLost(b) THEN b ELSE b)
+  LET v == ParseA(BytesOf("canon", p.fmt, p.ver, p.es))
   IN ~IsErr(v) /\ LogicalA(v) = LogicalP(p)
 
 \* ------------------------------------------------ recorded executions (T)
@@ -119,8 +123,9 @@ DevExplainsRt(fid, e, broken) ==
          /\ e.b2.msg = "Corrupted block header: No blocks to build"
     [] fid = "F08d" ->  \* product config: HashMap-typed fields are serialised in iteration order
          /\ e.fmt = "product_config" /\ broken = {"E3"} /\ "hm" \in DOMAIN e /\ e.hm >= 2
-    [] fid = "F08e" ->  \* TVFS: tables not laid out the way the builder lays them out
+    [] fid = "F08e" ->  \* TVFS: spans that reference container-table offsets at which the scan finds no entry
          /\ e.fmt = "tvfs" /\ broken \subseteq {"E3", "E4"} /\ broken # {} /\ ~e.exact
+         /\ "dang" \in DOMAIN e /\ e.dang
     [] fid = "F08f" ->  \* real CDN files that are not reproduced byte for byte
          /\ broken = {"E5"} /\ e.exact
          /\ e.seed \in {"root/classic_era_v1_2blocks.root", "root/retail_11.2.7_v2_3blocks.root",
@@ -131,5 +136,20 @@ DevExplainsRt(fid, e, broken) ==
                         "config/wow_classic_era_build_config.txt"}
     [] fid = "F08g" ->  \* real ESpec strings: the one-block shorthand b:SPEC is written back as b:{SPEC}
          /\ e.fmt = "espec" /\ broken = {"E5"} /\ e.exact
+    [] fid = "F08h" ->  \* patch archive: the serialiser recomputes the header flags and drops bit 0 (plain data)
+         /\ e.fmt = "patch_archive" /\ broken = {"E4"} /\ HasF(e, "flags") /\ Small(e.h["flags"]) % 2 = 1
     [] OTHER -> FALSE
+
+RtOrder == <<"F08a", "F08b", "F08c", "F08d", "F08e", "F08f", "F08g", "F08h", "F08i", "F08j", "F08k", "F08l">>
+FirstRt(S) == RtOrder[CHOOSE i \in 1..Len(RtOrder) : RtOrder[i] \in S /\ \A j \in 1..(i - 1) : RtOrder[j] \notin S]
+
+\* the same findings on the serialisation of a builder program (event "bprog")
+DevExplainsBprog(fid, e, broken) ==
+  CASE fid = "F08a" -> e.fmt = "archive_index" /\ e.ver # 4 /\ broken \subseteq {"E2", "E3", "E4"} /\ broken # {}
+    [] OTHER -> FALSE
+\* F08i: EncodingBuilder with no entry serialises a file with zero pages, which EncodingFile::parse refuses
+EmptyEncoding(e) ==
+  /\ "F08i" \in KnownDeviations /\ e.fmt = "encoding" /\ e.es = <<>>
+  /\ "parse" \in DOMAIN e /\ e.parse.o = "err"
+  /\ e.parse.msg = "Invalid ckey_page_count page count: must be > 0, got 0"
 =============================================================================
